@@ -695,3 +695,92 @@ Definition frame_dec_current (wd : list Z -> option (list Z)) (stale : list Z) (
       | None => None
       end
   end.
+
+(* ================= column segment: one-row mode and column header (engine/immutable/column_builder.go) =================
+   A segment is a list of rows; a row is null (None) or the raw bytes of its value (int/float: 8 bytes LE, bool: 1 byte,
+   string: its bytes - possibly none). col.Val is the concatenation of the non-null values. The block that follows the
+   header is produced by the block coders modelled above and is a parameter here. *)
+Inductive ctype := CFloat | CInt | CBool | CString.
+Definition base_tag (t : ctype) : Z := match t with CInt => 1 | CFloat => 3 | CString => 4 | CBool => 5 end.
+Definition one_tag (t : ctype) : Z := match t with CFloat => 17 | CInt => 18 | CBool => 19 | CString => 20 end.
+Definition full_tag (t : ctype) : Z := match t with CFloat => 31 | CInt => 32 | CBool => 33 | CString => 34 end.
+Definition empty_tag (t : ctype) : Z := match t with CFloat => 41 | CInt => 42 | CBool => 43 | CString => 44 end.
+
+Definition row := option (list Z).
+Definition is_some (r : row) : bool := match r with Some _ => true | None => false end.
+Definition validity (rows : list row) : list bool := map is_some rows.
+Definition nil_count (rows : list row) : Z := len (filter (fun r => negb (is_some r)) rows).
+Definition col_val (rows : list row) : list Z := flat_map (fun r => match r with Some v => v | None => [] end) rows.
+
+(* null bitmap: least significant bit first, 1 = value present *)
+Definition byte_of_bits_lsb (l : list bool) : Z :=
+  bit (nth 0 l false) + 2 * bit (nth 1 l false) + 4 * bit (nth 2 l false) + 8 * bit (nth 3 l false) +
+  16 * bit (nth 4 l false) + 32 * bit (nth 5 l false) + 64 * bit (nth 6 l false) + 128 * bit (nth 7 l false).
+Definition bits_of_byte_lsb (v : Z) : list bool :=
+  [Z.odd v; Z.odd (v / 2); Z.odd (v / 4); Z.odd (v / 8); Z.odd (v / 16); Z.odd (v / 32); Z.odd (v / 64); Z.odd (v / 128)].
+Fixpoint pack_bits_lsb (fuel : nat) (bs : list bool) : list Z :=
+  match fuel with
+  | O => []
+  | S k => match bs with [] => [] | _ => byte_of_bits_lsb bs :: pack_bits_lsb k (skipn 8 bs) end
+  end.
+
+(* header modes; the bitmap mode carries what the real bitmap holds around the segment's own bits: `pre` bits before
+   the bitmap offset (a segment split off a longer column starts inside a byte) and `post` padding bits *)
+Inductive hmode := HOne | HFull | HEmpty | HBitmap (pre post : list bool).
+
+Definition seg_applicable (m : hmode) (rows : list row) : bool :=
+  match m with
+  | HOne => match rows with
+            | [Some v] => (0 <? len v) && (len v <? 16)       (* CanEncodeOneRowMode: Len = 1, 0 < len(Val) < 16 *)
+            | _ => false
+            end
+  | HFull => (nil_count rows =? 0) && (0 <? len rows) && (len rows <? M32)
+  | HEmpty => (nil_count rows =? len rows) && (0 <? len rows) && (len rows <? M32)
+  | HBitmap pre post =>
+      (0 <? len rows) && (len rows <? M32 - 16) && (len pre <? 8) && (len post <? 8) &&
+      ((len pre + len rows + len post) mod 8 =? 0)
+  end.
+
+Definition seg_enc_with (t : ctype) (m : hmode) (block : list Z) (rows : list row) : list Z :=
+  match m with
+  | HOne => [one_tag t] ++ col_val rows
+  | HFull => [full_tag t] ++ be 4 (len rows) ++ block
+  | HEmpty => [empty_tag t] ++ be 4 (len rows) ++ block
+  | HBitmap pre post =>
+      let bits := pre ++ validity rows ++ post in
+      let bm := pack_bits_lsb (length bits) bits in
+      [base_tag t] ++ be 4 (len bm) ++ bm ++ be 4 (len pre) ++ be 4 (nil_count rows) ++ block
+  end.
+
+(* the reader (decodeColumnData / DecodeColumnHeader / DecodeColumnOfOneValue): validity of the rows and the payload
+   handed to the block decoder (one-row mode: the value itself). `nrows` is the row count the reader derives from the
+   decoded block (values + nil count, or number of string offsets). *)
+Definition seg_dec (t : ctype) (nrows : Z) (bs : list Z) : option (list bool * list Z) :=
+  match bs with
+  | [] => None
+  | tag :: body =>
+      if (16 <? tag) && (tag <? 21) then
+        Some ([match body with [] => false | _ => true end], body)
+      else if (30 <? tag) && (tag <? 35) then
+        match get_be 4 body with Some (n, payload) => Some (repeat true (Z.to_nat n), payload) | None => None end
+      else if (40 <? tag) && (tag <? 45) then
+        match get_be 4 body with Some (n, payload) => Some (repeat false (Z.to_nat n), payload) | None => None end
+      else if tag =? base_tag t then
+        match get_be 4 body with
+        | Some (bmlen, r) =>
+            if len r <? bmlen + 8 then None else
+            let bm := firstn (Z.to_nat bmlen) r in
+            match get_be 4 (skipn (Z.to_nat bmlen) r) with
+            | Some (off, r2) =>
+                match get_be 4 r2 with
+                | Some (_, payload) =>
+                    let bits := skipn (Z.to_nat off) (flat_map bits_of_byte_lsb bm) in
+                    if len bits <? nrows then None else Some (firstn (Z.to_nat nrows) bits, payload)
+                | None => None
+                end
+            | None => None
+            end
+        | None => None
+        end
+      else None
+  end.
